@@ -1162,3 +1162,124 @@ def rule_every_line_painted(ctx, crate, rule="R-EVERY-LINE-PAINTED"):
         ctx.check(not again, rule, "no-skipped-line#%d" % k, pb.name, c.loc(),
                   "every iteration of the paint loop that continues to the next line has written its line",
                   "the paint loop can go on to the next line without writing the current one (and without its newline / last-line filler)", cfg)
+
+
+def rule_rows_finite(ctx, crate, rule="R-ROWS-FINITE"):
+    """Row accounting must stay finite for every terminal width, 0 included: in the drawing code (draw_target.rs, multi.rs)
+    every float division whose quotient is converted to an integer (rows = ceil(columns / width)) has a divisor that
+    cannot be zero - it is clamped with `max(_, k >= 1)`, is a non-zero constant, or the division is dominated by an edge
+    of a comparison of the divisor's source with zero. (x / 0.0 is inf or NaN: `as usize` gives usize::MAX or 0 and the
+    integer arithmetic on row counts that follows overflows.)"""
+    cfg = crate.config
+    n = 0
+    for b in K.lib_bodies(crate):
+        if b.file not in ("src/draw_target.rs", "src/multi.rs"):
+            continue
+        for i, j, s in b.assigns():
+            rv = s["rv"]
+            if rv["k"] != "bin" or rv["op"] != "Div" or b.locals[s["lhs"]["l"]]["ty"] not in ("f64", "f32") or s["lhs"]["p"]:
+                continue
+            # does the quotient reach a float-to-int cast?
+            q = s["lhs"]["l"]
+            toint = False
+            for i2, j2, s2 in b.assigns():
+                if s2["rv"]["k"] == "cast" and s2["rv"].get("ck", "").startswith("FloatToInt"):
+                    sl = b.slice(s2["rv"]["op"], at=i2)
+                    if q in sl.locals:
+                        toint = True
+            if not toint:
+                continue
+            n += 1
+            ok, why = _nonzero_float(b, rv["b"], i)
+            ctx.check(ok, rule, "divisor-nonzero", b.name, "%s:%d" % (b.file, s.get("line", 0)),
+                      "rows = columns / width is computed with a divisor that cannot be zero (%s)" % why,
+                      "a row count is computed as columns / width with a width that can be zero: a terminal reporting 0 columns makes "
+                      "every non-empty line usize::MAX rows high and the row arithmetic that follows overflows (%s)" % why, cfg)
+    ctx.floor(rule, n, 1, cfg, "float divisions converted to row counts in draw_target.rs / multi.rs")
+
+
+def _nonzero_float(b, op, at, depth=0):
+    if depth > 6 or not isinstance(op, dict):
+        return False, "divisor not resolved"
+    if op.get("k") == "const":
+        v = const_val(op)
+        try:
+            return (float(v) != 0.0), "constant %s" % v
+        except (TypeError, ValueError):
+            return False, "constant"
+    l = operand_local(op)
+    if l is None or op["place"]["p"]:
+        return False, "divisor is a field/projection"
+    ds = [d for d in b.defs().get(l, ()) if d["kind"] in ("assign", "call") and b.def_reaches(d, at)]
+    if len(ds) != 1:
+        # a parameter or several definitions: look for a dominating zero test
+        return _guarded_nonzero(b, l, at)
+    d = ds[0]
+    if d["kind"] == "assign" and d["rv"]["k"] in ("use", "cast"):
+        return _nonzero_float(b, d["rv"]["op"], d["bb"], depth + 1)
+    if d["kind"] == "call":
+        c = d["call"]
+        if c.matches(r"std::cmp::Ord::(max|clamp)", r"core::num::<impl \w+>::(max|clamp)", r"std::cmp::max", r"core::f64::<impl f64>::max", r"std::f64::<impl f64>::max"):
+            lows = [const_val(a) for a in (c.args[1:2] if K.meth(c.path) == "clamp" else c.args)]
+            if any(isinstance(v, int) and not isinstance(v, bool) and v >= 1 for v in lows):
+                return True, "clamped with %s(_, >= 1)" % K.meth(c.path)
+            if any(isinstance(v, str) and v.replace(".", "", 1).isdigit() and float(v) > 0 for v in lows):
+                return True, "clamped with a positive float"
+        if c.matches(r"std::convert::(From::from|Into::into)") and c.args:
+            return _nonzero_float(b, c.args[0], c.bb, depth + 1)
+        if c.matches(r"core::num::nonzero::NonZero::<T>::get"):
+            return True, "NonZero"
+    g = _guarded_nonzero(b, l, at)
+    return g if g[0] else (False, "no clamp, constant or zero test on the divisor")
+
+
+def _guarded_nonzero(b, l, at):
+    """The block is dominated by an edge of `x == 0` (false) / `x != 0`, `x > 0`, `x >= 1` (true) for x the source of local l."""
+    src = l
+    for _ in range(4):
+        ds = [d for d in b.defs().get(src, ()) if d["kind"] != "param"]
+        if len(ds) == 1 and ds[0]["kind"] == "assign" and ds[0]["rv"]["k"] in ("use", "cast") and operand_local(ds[0]["rv"]["op"]) is not None \
+                and not ds[0]["rv"]["op"]["place"]["p"]:
+            src = operand_local(ds[0]["rv"]["op"])
+    for sb, t in b.switches():
+        zt = [tb for v, tb in t["targets"] if v == 0]
+        tl = operand_local(t["op"])
+        if tl is None or not zt:
+            continue
+        if tl == src and b.locals[tl]["ty"] != "bool":
+            if b.edge_dominates((sb, t["otherwise"]), at) and t["otherwise"] != zt[0]:
+                return True, "inside `match width { 0 => .., _ => here }`"
+            continue
+        ds = [d for d in b.defs().get(tl, ()) if d["kind"] == "assign" and d["rv"]["k"] == "bin"]
+        if len(ds) != 1:
+            continue
+        rv = ds[0]["rv"]
+        a_l, b_l = operand_local(rv["a"]), operand_local(rv["b"])
+        def is_src(x):
+            if x is None:
+                return False
+            cur = x
+            for _ in range(4):
+                if cur == src:
+                    return True
+                dd = [d for d in b.defs().get(cur, ()) if d["kind"] != "param"]
+                if len(dd) == 1 and dd[0]["kind"] == "assign" and dd[0]["rv"]["k"] in ("use", "cast") and operand_local(dd[0]["rv"]["op"]) is not None:
+                    cur = operand_local(dd[0]["rv"]["op"])
+                else:
+                    break
+            return cur == src
+        ca, cb = const_val(rv["a"]), const_val(rv["b"])
+        op = rv["op"]
+        if is_src(b_l) and ca is not None:
+            op = {"Gt": "Lt", "Lt": "Gt", "Ge": "Le", "Le": "Ge"}.get(op, op)
+            cb = ca
+        elif not (is_src(a_l) and cb is not None):
+            continue
+        true_e, false_e = (sb, t["otherwise"]), (sb, zt[0])
+        nz_true = (op, cb) in (("Ne", 0), ("Gt", 0), ("Ge", 1))
+        nz_false = (op, cb) in (("Eq", 0), ("Le", 0), ("Lt", 1))
+        if nz_true and b.edge_dominates(true_e, at):
+            return True, "under `width %s %s`" % (op, cb)
+        if nz_false and b.edge_dominates(false_e, at):
+            return True, "after `width %s %s` was excluded" % (op, cb)
+    return False, "no zero test dominates the division"
